@@ -33,11 +33,14 @@ EXTENDS Integers, Sequences
 CONSTANTS MaxTicks,     \* bound on the number of timer firings (model checking)
           ROSChoices,   \* values of RefreshOnShutdown chosen in Init
           RefOutcomes,  \* {"nil", "err"}
-          AllowTBD      \* FALSE: the sequential driver (no Fire once done is closed)
+          AllowTBD,     \* FALSE: the sequential driver (no Fire once done is closed)
+          CloseLate     \* FALSE = the code as it is (`close(w.done)` first); TRUE = a Shutdown that closes
+                        \* done only when it returns (`defer close(w.done)`), kept to show on the design
+                        \* what the window check is for
 
 VARIABLES ros,       \* Go: w.refrOnShutdown
           lp,        \* loop goroutine: "ask", "sleep", "waiting", "refresh", "handle", "stopped"
-          sp,        \* Shutdown caller: "none", "final", "returning", "returned"
+          sp,        \* Shutdown caller: "none", "final", "infinal" (final refresh in flight), "returning", "returned"
           done,      \* Go: w.done is closed
           nnow,      \* number of clock.Now() calls = id of the latest time
           nd,        \* number of schedule.UntilNext calls = id of the latest answer
@@ -53,7 +56,8 @@ VARIABLES ros,       \* Go: w.refrOnShutdown
           result,    \* Shutdown's result: -1 not returned, 0 nil, k>0 wraps the error of refresh k
           ferr,      \* error of the final refresh, 0 = none
           tbd,       \* number of TickBeatsDone steps
-          trig       \* which select branch started the refresh in progress: "tick", "tbd" ("none" otherwise)
+          trig       \* what started the refresh in progress: "tick", "tbd", or "late" = a tick taken after
+                     \* Shutdown was called with done still open ("none" when no loop refresh is starting)
 
 wvars == <<ros, lp, sp, done, nnow, nd, askedWith, waitD, timer, timerD, fires, ticks,
            refs, lerr, handled, result, ferr, tbd, trig>>
@@ -62,8 +66,10 @@ wvars == <<ros, lp, sp, done, nnow, nd, askedWith, waitD, timer, timerD, fires, 
 (* cons: the refresher received the context the constructor returned for this *)
 (* very refresh; live: not cancelled yet when Refresh was called; out: the    *)
 (* refresher's outcome; afterDone: done was already closed when it started;   *)
-(* trig: the select branch that led to it ("none" for the final refresh).     *)
+(* afterShutdown: Shutdown had already been called; trig: what led to it      *)
+(* ("none" for the final refresh).                                            *)
 Ref(who, out) == [who |-> who, cons |-> TRUE, live |-> TRUE, out |-> out, afterDone |-> done,
+                  afterShutdown |-> (sp # "none"),
                   trig |-> IF who = "loop" THEN trig ELSE "none"]
 
 WNewState(r) ==
@@ -96,7 +102,8 @@ TickEffect ==
     /\ UNCHANGED <<ros, sp, done, nnow, nd, askedWith, waitD, timerD, refs, lerr, handled, result, ferr>>
 
 (* The select takes the timer branch. *)
-Tick == lp = "waiting" /\ timer = "fired" /\ ~done /\ TickEffect /\ trig' = "tick" /\ UNCHANGED <<fires, tbd>>
+TickKind == IF sp = "none" THEN "tick" ELSE "late"
+Tick == lp = "waiting" /\ timer = "fired" /\ ~done /\ TickEffect /\ trig' = TickKind /\ UNCHANGED <<fires, tbd>>
 TickBeatsDone == /\ AllowTBD
                  /\ lp = "waiting" /\ timer = "fired" /\ done /\ TickEffect
                  /\ tbd' = tbd + 1 /\ trig' = "tbd" /\ UNCHANGED fires
@@ -137,36 +144,45 @@ Fire ==
 (* closed: a select cannot stay parked on a closed channel.                   *)
 DeliverTick ==
     /\ lp = "waiting" /\ timer = "pending" /\ ~done
-    /\ TickEffect /\ fires' = fires + 1 /\ trig' = "tick" /\ UNCHANGED tbd
+    /\ TickEffect /\ fires' = fires + 1 /\ trig' = TickKind /\ UNCHANGED tbd
 
 ----------------------------------------------------------------------------
 (* The caller of Shutdown. *)
-(* `close(w.done)` *)
+(* `close(w.done)` - first thing in Shutdown. *)
 Shutdown ==
     /\ sp = "none"
-    /\ done' = TRUE
+    /\ done' = (IF CloseLate THEN done ELSE TRUE)
     /\ sp' = IF ros THEN "final" ELSE "returning"
     /\ UNCHANGED <<ros, lp, nnow, nd, askedWith, waitD, timer, timerD, fires, ticks, refs, lerr, handled, result, ferr, tbd, trig>>
 
-(* `err = w.refresh(ctx)` in Shutdown. *)
+(* `err = w.refresh(ctx)` in Shutdown: the refresher is entered.  Until        *)
+(* ShutdownReturn the final refresh is IN FLIGHT (sp = "infinal"): that is    *)
+(* the window in which a loop that has not been told to stop could still be   *)
+(* woken by its timer.                                                        *)
 FinalRefresh(out) ==
     /\ sp = "final" /\ out \in RefOutcomes
     /\ refs' = Append(refs, Ref("final", out))
     /\ ferr' = IF out = "err" THEN Len(refs) + 1 ELSE 0
-    /\ sp' = "returning"
+    /\ sp' = "infinal"
     /\ UNCHANGED <<ros, lp, done, nnow, nd, askedWith, waitD, timer, timerD, fires, ticks, lerr, handled, result, tbd, trig>>
 
 (* `return fmt.Errorf("refresh on shutdown: %w", err)` / `return nil` *)
 ShutdownReturn ==
-    /\ sp = "returning"
+    /\ sp \in {"infinal", "returning"}
     /\ result' = ferr
     /\ sp' = "returned"
-    /\ UNCHANGED <<ros, lp, done, nnow, nd, askedWith, waitD, timer, timerD, fires, ticks, refs, lerr, handled, ferr, tbd, trig>>
+    /\ done' = TRUE
+    /\ UNCHANGED <<ros, lp, nnow, nd, askedWith, waitD, timer, timerD, fires, ticks, refs, lerr, handled, ferr, tbd, trig>>
+
+(* The environment offers a tick while the final refresh is in flight (the    *)
+(* driver's non-blocking hand-over).  It can only be taken by a worker that   *)
+(* is parked with done still open - never, when done is closed first.         *)
+WindowTick == sp = "infinal" /\ DeliverTick
 
 LoopStep == AskSchedule \/ Sleep \/ Tick \/ TickBeatsDone \/ SeeDone
             \/ (\E o \in RefOutcomes : Refresh(o)) \/ HandleError
 CallerStep == Shutdown \/ (\E o \in RefOutcomes : FinalRefresh(o)) \/ ShutdownReturn
-WNext == LoopStep \/ CallerStep \/ Fire
+WNext == LoopStep \/ CallerStep \/ Fire \/ WindowTick
 
 WSpec == WInit /\ [][WNext]_wvars /\ WF_wvars(LoopStep) /\ SF_wvars(SeeDone)
 
@@ -177,15 +193,17 @@ Count(s, P(_)) == LET F[i \in 0..Len(s)] == IF i = 0 THEN 0 ELSE F[i - 1] + (IF 
 IsLoop(r) == r.who = "loop"
 IsFinal(r) == r.who = "final"
 IsLoopAfterDone(r) == r.who = "loop" /\ r.afterDone
-IsInFlight(r) == r.who = "loop" /\ r.afterDone /\ r.trig = "tick"
+IsLoopAfterShutdown(r) == r.who = "loop" /\ r.afterShutdown
+IsInFlight(r) == r.who = "loop" /\ r.afterShutdown /\ r.trig = "tick"
 IsTBD(r) == r.trig = "tbd"
+IsLate(r) == r.trig = "late"
 LoopRefs == Count(refs, IsLoop)
 FinalRefs == Count(refs, IsFinal)
 LoopErrs == {k \in 1..Len(refs) : refs[k].who = "loop" /\ refs[k].out = "err"}
 Range(s) == {s[k] : k \in 1..Len(s)}
 
 WTypeOK == /\ lp \in {"ask", "sleep", "waiting", "refresh", "handle", "stopped"}
-           /\ sp \in {"none", "final", "returning", "returned"}
+           /\ sp \in {"none", "final", "infinal", "returning", "returned"}
            /\ timer \in {"none", "pending", "fired"}
            /\ ticks <= fires /\ fires <= MaxTicks
 
@@ -218,23 +236,31 @@ ScheduleConsulted ==
     /\ (timer # "none") => timerD = nd
 
 (* "after Shutdown refreshes no more except for the single final Refresh ...  *)
-(* when RefreshOnShutdown is set".  A loop refresh that starts after done was *)
-(* closed is either the one whose tick had been received before (in flight,   *)
-(* at most one) or was started by TickBeatsDone; never anything else.  See    *)
-(* SequentialNoRefreshAfterShutdown for what the conformance driver sees.     *)
+(* when RefreshOnShutdown is set".  A loop refresh that starts after Shutdown *)
+(* was called is either the one whose tick had been received before (in       *)
+(* flight, at most one) or was started by TickBeatsDone; never by a tick      *)
+(* taken after Shutdown was called with done still open ("late": the window   *)
+(* of the final refresh).  See SequentialNoRefreshAfterShutdown for what the  *)
+(* conformance driver sees.                                                   *)
 NoRefreshAfterShutdown ==
     /\ Count(refs, IsInFlight) <= 1
     /\ Count(refs, IsTBD) = (IF trig = "tbd" THEN tbd - 1 ELSE tbd)
-    /\ Count(refs, IsLoopAfterDone) = Count(refs, IsInFlight) + Count(refs, IsTBD)
+    /\ Count(refs, IsLate) = 0 /\ trig # "late"
+    /\ Count(refs, IsLoopAfterShutdown) = Count(refs, IsInFlight) + Count(refs, IsTBD)
     /\ (~AllowTBD => tbd = 0)
     /\ FinalRefs <= 1
-    /\ (sp \in {"returning", "returned"}) => (FinalRefs = IF ros THEN 1 ELSE 0)
+    /\ (sp \in {"infinal", "returning", "returned"}) => (FinalRefs = IF ros THEN 1 ELSE 0)
     /\ (sp = "none") => FinalRefs = 0
+
+(* done is closed before anything else Shutdown does, in particular before    *)
+(* the final refresh: WindowTick is never enabled.                            *)
+DoneClosedFirst == (sp # "none") => done
+WindowNeverTicks == ~(sp = "infinal" /\ lp = "waiting" /\ timer = "pending" /\ ~done)
 
 (* Under the sequential driver (Shutdown only while the worker is parked in   *)
 (* the select, ticks only through DeliverTick) no loop refresh ever starts    *)
-(* after done was closed.                                                     *)
-SequentialNoRefreshAfterShutdown == Count(refs, IsLoopAfterDone) = 0
+(* after Shutdown was called.                                                 *)
+SequentialNoRefreshAfterShutdown == Count(refs, IsLoopAfterShutdown) = 0 /\ Count(refs, IsLoopAfterDone) = 0
 
 (* "whose error Shutdown returns" *)
 ShutdownResult ==
